@@ -22,12 +22,19 @@ func ostr(d *ast.Definition) string {
 }
 
 // DumpSchema: canonical text of a loaded schema, maps by sorted key (Coq: Schema.dump_schema).
-func DumpSchema(s *ast.Schema) string {
-	d := &dumper{}
+func DumpSchema(s *ast.Schema) string { return dumpSchemaWith(&dumper{}, s, false) }
+
+// NormDumpSchema: what C13 lists as preserved — types, fields, arguments, defaults, directives,
+// roots and (unless left out) descriptions; the possible-type and implementer lists as sets.
+func NormDumpSchema(s *ast.Schema, noDesc, noBuiltin bool) string {
+	return dumpSchemaWith(&dumper{noDesc: noDesc, noBuiltin: noBuiltin}, s, true)
+}
+
+func dumpSchemaWith(d *dumper, s *ast.Schema, sortRel bool) string {
 	d.s("SCHEMA(" + ostr(s.Query) + "," + ostr(s.Mutation) + "," + ostr(s.Subscription) + ",")
 	d.dirs(s.SchemaDirectives)
 	d.s(",")
-	d.hex(s.Description)
+	d.desc(s.Description)
 	d.s(",[")
 	var tn []string
 	for k := range s.Types {
@@ -69,16 +76,18 @@ func DumpSchema(s *ast.Schema) string {
 			}
 			d.hex(k)
 			d.s("=[")
-			for j, x := range m[k] {
-				if j > 0 {
-					d.s(",")
-				}
+			var names []string
+			for _, x := range m[k] {
 				if x == nil {
-					d.s("NIL")
+					names = append(names, "NIL")
 				} else {
-					d.hex(x.Name)
+					names = append(names, hex.EncodeToString([]byte(x.Name)))
 				}
 			}
+			if sortRel {
+				sort.Strings(names)
+			}
+			d.s(strings.Join(names, ","))
 			d.s("]")
 		}
 		d.s("]")
